@@ -35,7 +35,7 @@ SHRINK_LISTS = ["ops", "items"]
 
 def generate(rng, run, tier):
     if rng.random() < 0.5:
-        plan = c01.generate(rng, run, tier)
+        plan = c01.gen_plan(rng, run, tier)
         plan["source"] = "real"
         plan["integration"] = "generic"
         plan["cfg"]["delimited"] = True
